@@ -120,7 +120,8 @@ def step (s : DSt) (line : String) : DSt × String :=
     let (s', tr) := runUpdate s (t.toNat?.getD 0) (id.toNat?.getD 0) (unhex e) (unhex l)
     let sts := distinctStates s.w tr.visited
     let vs := sts.map (verdict s')
-    let offDiff := (sts.filter fun w => getCachedOrRefreshOffline s'.params w cdir != getCachedConfig s'.params w cdir).length
+    let sampled := (sts.zipIdx.filter fun (_, i) => i % 3 == 0).map (·.1)
+    let offDiff := (sampled.filter fun w => getCachedOrRefreshOffline s'.params w cdir != getCachedConfig s'.params w cdir).length
     let wEnd := match k.toInt? with
       | some k => if k ≥ 0 && !sts.isEmpty then sts.getD (k.toNat % sts.length) tr.last else tr.last
       | none => tr.last
